@@ -3,13 +3,17 @@ package c11
 import (
 	"encoding/json"
 	"fmt"
+	"regexp"
+	"runtime"
 	"strings"
+	"sync"
 	"testing"
 
 	"pgregory.net/rapid"
 
 	"verif/gen"
 	"verif/hist"
+	"verif/lib"
 	"verif/run"
 )
 
@@ -226,6 +230,111 @@ func kinds(p []*hist.Spec) []string {
 		out = append(out, s.Kind)
 	}
 	return out
+}
+
+// ---------------------------------------------------------------------------------------
+// Equal texts, fresh objects, many times: a schema with several defects has to report the same one
+// every time - whichever heap addresses the objects get (anonymous types of "or" rule sets are
+// named after their addresses) and whoever else is building schemas at the moment.
+
+const chkFresh = "fresh-objects-agree"
+
+type FreshCase struct {
+	Spec lib.Spec `json:"spec"`
+	Doc  string   `json:"doc,omitempty"`
+}
+
+func init() {
+	run.RegisterReplay(chkFresh, func(t run.TB, raw json.RawMessage) {
+		var c FreshCase
+		if err := json.Unmarshal(raw, &c); err != nil {
+			t.Fatalf("bad case: %v", err)
+		}
+		checkFresh(t, c, 8, 400)
+	})
+}
+
+var reAddress = regexp.MustCompile(`0x[0-9a-f]+`)
+
+// maskAddresses: the text of a message may name an anonymous type (by its address); which defect is
+// reported, where, with which code and wording is compared - not that name.
+func maskAddresses(s string) string { return reAddress.ReplaceAllString(s, "0x?") }
+
+func freshResult(c FreshCase) string {
+	s, add := lib.Build(c.Spec)
+	r := lib.Check(s)
+	out := fmt.Sprint(add.OK, add.Code, add.Pos, " ", r.OK, r.Code, r.Pos, r.HasPos, r.Panic != "", " ", maskAddresses(r.Msg))
+	if c.Doc != "" {
+		v := lib.Validate(s, []byte(c.Doc))
+		out += fmt.Sprint(" ", v.OK, v.Code, v.Pos, " ", maskAddresses(v.Msg))
+	}
+	return out
+}
+
+func checkFresh(t run.TB, c FreshCase, goroutines, perG int) {
+	want := freshResult(c)
+	var mu sync.Mutex
+	other := map[string]int{}
+	var wg sync.WaitGroup
+	for g := 0; g < goroutines; g++ {
+		wg.Add(1)
+		go func() {
+			defer wg.Done()
+			for i := 0; i < perG; i++ {
+				if got := freshResult(c); got != want {
+					mu.Lock()
+					other[got]++
+					mu.Unlock()
+				}
+				if i%100 == 50 {
+					runtime.GC()
+				}
+			}
+		}()
+	}
+	wg.Wait()
+	for got, n := range other {
+		run.Fail(t, chkFresh, c, "%d of %d fresh objects built from the same texts answered\n  %s\nthe first one answered\n  %s", n, goroutines*perG, got, want)
+	}
+}
+
+func TestFreshObjectsAgree(t *testing.T) {
+	run.SkipIfReplaying(t)
+	defer run.Done(t, chkFresh)
+	faulty := []string{
+		`{type: "integer", minLength: 1}`, `{type: "string", min: 1}`, `{type: "boolean", maxLength: 2}`,
+		`{type: "float", regex: "a"}`, `{type: "null", max: 1}`, `{type: "integer", maxItems: 1}`,
+		`{type: "string", minItems: 1}`, `{type: "boolean", min: 1}`, `{type: "string", max: 1}`,
+		`{type: "integer", regex: "a"}`, `{type: "integer", min: 5, max: 1}`, `{type: "string", minLength: 3, maxLength: 1}`,
+	}
+	fine := []string{`{type: "integer", min: 0}`, `{type: "string", minLength: 1}`, `"null"`, `{type: "boolean"}`}
+	rapid.Check(t, func(t *rapid.T) {
+		var sets []string
+		for _, i := range rapid.Permutation(faulty).Draw(t, "faulty")[:rapid.IntRange(2, 10).Draw(t, "nfaulty")] {
+			sets = append(sets, i)
+		}
+		for i, n := 0, rapid.IntRange(0, 2).Draw(t, "nfine"); i < n; i++ {
+			pos := rapid.IntRange(0, len(sets)).Draw(t, "finePos")
+			sets = append(sets[:pos], append([]string{rapid.SampledFrom(fine).Draw(t, "fine")}, sets[pos:]...)...)
+		}
+		or := "1 // {or: [" + strings.Join(sets, ", ") + "]}"
+		var c FreshCase
+		switch rapid.IntRange(0, 3).Draw(t, "place") {
+		case 0:
+			c.Spec.Schema = or
+		case 1:
+			c.Spec.Schema = "{\n  \"k\": " + or + "\n}"
+		case 2:
+			// the defects sit in a type, and in a second type with the same file name
+			c.Spec = lib.Spec{Schema: "{\n  \"a\": @a,\n  \"b\": @b\n}", SameFile: true, Types: []lib.Named{{Name: "@a", Text: or}, {Name: "@b", Text: or}}}
+		case 3:
+			c.Spec = lib.Spec{Schema: "[\n  " + or + ",\n  @a | @b\n]", Types: []lib.Named{{Name: "@a", Text: "1"}, {Name: "@b", Text: "\"s\""}}}
+		}
+		checkFresh(t, c, 8, run.Scale(250, 1000))
+		run.Eval(chkFresh, true, fmt.Sprint(c.Spec))
+		run.Label("several-defective-rule-sets-in-one-or")
+		run.Sample(chkFresh, c)
+	})
 }
 
 func TestReplay(t *testing.T) { run.TestReplay(t) }
